@@ -1,3 +1,5 @@
+//go:build verif
+
 // vworker: runs ONE exploration job (scenario x configuration x mode) of the scipipe
 // verification harness and prints its result as JSON. It is compiled against the
 // instrumented copy of /repo's working tree (see /verif/vcheck.py).
@@ -467,7 +469,7 @@ func outcomeKey(o *Obs) string {
 		if c == "<dir>" {
 			continue
 		}
-		if strings.HasSuffix(p, ".audit.json") {
+		if strings.HasSuffix(p, ".audit.json") || strings.HasSuffix(p, ".audit.json.tmp") {
 			files = append(files, p)
 		} else {
 			files = append(files, p+"="+c)
